@@ -138,4 +138,11 @@ var propMeta = map[string]*PropMeta{
 		Assumptions: commonAssumptions,
 		Probes: []string{"probe.web.session-cookie", "probe.web.right-token", "probe.rpc.query.none", "probe.rpc.follow.wrong", "probe.rpc.remotequery.none"},
 	},
+	"C16": {
+		Level: "exploration", QuickSecs: 50, ThoroughSecs: 900, Recycle: 60,
+		Rule: "one case = one seeded plan on a standalone node, a 2-partition cluster and the web insert endpoint, with a differential node D that only receives the valid points: 4-16 valid points with malformed traffic in between: (i) SQL strings: grammar-derived queries mutated 1-3 times (token delete/duplicate/swap, truncation, odd tokens, statement-type substitution, wrapping, splicing) or drawn from a list of ~90 statements (non-SELECT statements, wrong arities and argument types for every function, unknown tables/fields/functions, bad periods/limits/ranges, odd quoting, nested subqueries), each fed to sql.Parse, sql.TableFor, DB.Query on the standalone node, DB.Query on the passthrough leader (cluster planner) and DB.Query as subquery, under recover; (ii) 22 kinds of insert payloads (empty/nil maps, nil/slice/map/struct/odd-typed dims, non-numeric/NaN/Inf/array/empty-array values, garbage and truncated raw byte maps, unknown stream, huge values, JSON bodies for POST /insert) sent to the standalone node, the leader or the web endpoint. Oracle: no panic in the caller; and bounded liveness: afterwards every valid point is ingested on the standalone node and, within 5 simulated minutes, replicated to the followers. The SQL half is an input property that the simulator merely hosts; the schedule-dependent half is the pipeline liveness.",
+		Real:  append([]string{"sql parser, planner (local and cluster), web /insert handler"}, realCL...), Stub: stubCL,
+		Assumptions: commonAssumptions,
+		Probes: []string{"op.sql", "op.payload.S", "op.payload.L", "op.payload.W"},
+	},
 }
